@@ -3,8 +3,8 @@
 Same walker as tools/gen/fdpaths.py (every control-flow path of the preprocessed function body; loops unrolled twice; calls that can
 raise fork), with janet_gcroot / janet_gcunroot as the events and, for the conditions that decide WHETHER an operation pins or
 releases (e.g. `if (NULL != proc)` in janet_proc_wait_cb, `if (return_value.fiber == NULL) return;` in the default threaded
-callback), an `assume` event carrying a tag and the branch taken.  The tag is only given to a condition of exactly the expected
-text (ExtractError otherwise), so that its polarity means what the Lean specification says.
+callback), an `assume` event carrying a tag and the branch taken.  The tag is only given to a condition whose normal form (operand order of == / !=, null tests,
+redundant parentheses) is the expected one (ExtractError otherwise), so that its polarity means what the Lean specification says.
 
 Lean (`Loop/RootPaths.lean`, `Props/C20.lean`) checks every extracted path against the pins / releases the event-loop model's
 transition for that operation performs (`root_paths_ok`): the function that starts an operation pins exactly the objects the
@@ -18,18 +18,37 @@ from .fds import RAISE_RX
 from . import fdpaths
 from .fdpaths import Walker, State, _paren, _parse_nodes, _uniq, _strip_parens, PANIC_RX
 
-# (file, function, [(tag, exact text of the condition, whitespace removed)])
+# (file, function, [(tag, the condition in the normal form of norm_cond)])
 FUNCS = [
     ("ev.c", "janet_async_start_fiber", []),
     ("ev.c", "janet_async_end", [("listening", "fiber->ev_callback")]),
     ("ev.c", "janet_ev_threaded_await", []),
-    ("ev.c", "janet_ev_default_threaded_callback", [("no-fiber", "return_value.fiber==((void*)0)")]),
+    ("ev.c", "janet_ev_default_threaded_callback", [("no-fiber", "!return_value.fiber")]),
     ("ev.c", "janet_thread_chan_cb", []),
     ("os.c", "os_proc_wait_impl", []),
-    ("os.c", "janet_proc_wait_cb", [("have-proc", "((void*)0)!=proc")]),
+    ("os.c", "janet_proc_wait_cb", [("have-proc", "proc")]),
     ("filewatch.c", "janet_watcher_listen", []),
     ("filewatch.c", "janet_watcher_unlisten", [("not-watching", "!watcher->is_watching")]),
 ]
+
+
+NULLP = "((void*)0)"
+
+
+def norm_cond(c):
+    """normal form of a condition for tag matching: redundant parentheses removed; `a == b` / `a != b` with the operands in a fixed
+    order; comparison with the null pointer written as truth test (`x != NULL` -> `x`, `NULL == x` -> `!x`)"""
+    c = _strip_parens(c)
+    for op in ("==", "!="):
+        parts = fdpaths._split_top(c, op)
+        if len(parts) == 2 and not any(p.endswith(("<", ">", "!", "=")) or p.startswith("=") for p in parts):
+            a, b = _strip_parens(parts[0]), _strip_parens(parts[1])
+            nulls = (NULLP, "(void*)0", "0")
+            if a in nulls or b in nulls:
+                x = b if a in nulls else a
+                return ("!" if op == "==" else "") + x
+            return op.join(sorted([a, b]))
+    return c
 
 
 def _root_arg(arg):
@@ -71,7 +90,7 @@ class RootWalker(Walker):
 
     def branch(self, cond, states):
         states = self.expr(cond, states)
-        c = _strip_parens(cond)
+        c = norm_cond(cond)
         for tag, text in self.tags:
             if c == text:
                 self.seen_tags.add(tag)
